@@ -3,6 +3,7 @@
 use super::econ2::BandTracker;
 use super::util::*;
 use crate::big::Big;
+use crate::mon::calc::reference_twap;
 use crate::ops::*;
 use crate::world::*;
 use margined_perp::margined_engine as eng;
@@ -775,35 +776,6 @@ fn find_raw_snaps(v: &serde_json::Value, lo: u64, hi: u64, out: &mut Vec<RawSnap
     }
 }
 
-/// The time-weighted average of one price per block (the block's final spot price, in effect from the block's time
-/// on) over `[now - iv, now]`, or over the whole history when that is shorter: the reading of "TWAP computed from at
-/// most one snapshot per block that reflects the block's final reserves". `None` when it is undefined (zero-length
-/// history, overflow).
-fn reference_twap(tl: &[(u64, u64, u128)], now: u64, iv: u64) -> Option<u128> {
-    let n = tl.len();
-    let base = now.checked_sub(iv)?;
-    let latest = tl[n - 1];
-    if n == 1 || latest.1 <= base {
-        return Some(latest.2);
-    }
-    let mut prev = latest.1;
-    let mut period = now.checked_sub(prev)?;
-    let mut acc = latest.2.checked_mul(period as u128)?;
-    for k in (0..n - 1).rev() {
-        let s = tl[k];
-        if s.1 <= base {
-            acc = acc.checked_add(s.2.checked_mul((prev - base) as u128)?)?;
-            return Some(acc / iv as u128);
-        }
-        acc = acc.checked_add(s.2.checked_mul((prev.checked_sub(s.1)?) as u128)?)?;
-        period += prev - s.1;
-        prev = s.1;
-    }
-    if period == 0 {
-        return None;
-    }
-    Some(acc / period as u128)
-}
 
 impl Monitor for C18 {
     fn prop(&self) -> &'static str {
